@@ -107,6 +107,9 @@ pub fn minimise(
             c.stream.hard_error_call = None;
             progress |= try_it(c, &mut cur, budget);
             let mut c = cur.clone();
+            c.stream.hard_error_offset = None;
+            progress |= try_it(c, &mut cur, budget);
+            let mut c = cur.clone();
             c.stream2 = StreamSpec::default();
             progress |= try_it(c, &mut cur, budget);
             let mut c = cur.clone();
